@@ -116,6 +116,8 @@ int main(int argc, char** argv) {
   tf.push_back(fam::make_LA(asan ? 5 : (quick ? 6 : 7)));
   tf.push_back(fam::make_LA1(asan ? 4 : (quick ? 5 : 6)));
   tf.push_back(fam::make_LW());
+  tf.push_back(fam::make_LC(1, false));            // deep documents: nesting 14..1026 (the serialiser keeps its own stack)
+  tf.push_back(fam::make_LH(asan ? 16 : 17, false));  // huge ARRAYS (== on objects is quadratic): output of several megabytes, many buffer growths
   std::shared_ptr<std::vector<std::string>> gram(new std::vector<std::string>());
   {
     std::vector<std::string> leaves = {"1", "-2", "1.5", "1e300", "\"a\"", "\"\\n\\\"\"", "null", "true", "false", "18446744073709551615"};
